@@ -96,6 +96,15 @@ def isSubseq : List Str → List Str → Bool
   | _ :: _, [] => false
   | a :: as, b :: bs => if a = b then isSubseq as bs else isSubseq (a :: as) bs
 
+def dropTrailingBlanks (l : Str) : Str := (l.reverse.dropWhile (· = ' ')).reverse
+
+/-- is `l` at most 80 long after taking off trailing forcing pieces (with the blanks before them)? -/
+def stripForcing (forcing : List Str) : Nat → Str → Bool
+  | 0, l => decide (l.length ≤ 80)
+  | fuel + 1, l =>
+    decide (l.length ≤ 80) ||
+      forcing.any fun x => x.isSuffixOf l && stripForcing forcing fuel (dropTrailingBlanks (l.take (l.length - x.length)))
+
 def judgeText (d : UDecl) (t : Str) : Option String :=
   let ls := lines t
   -- the option section: everything behind the synopsis paragraph
@@ -142,11 +151,17 @@ def judgeText (d : UDecl) (t : Str) : Option String :=
   let descPieces := (allEntries d).flatMap fun e =>
     piecesOf e.description ++ piecesOf (formatDefault e) ++
       (if e.env ≠ [] then ["'".toList ++ e.env ++ "'.".toList] else [])
-  let isInfix := fun (x l : Str) => x ≠ [] ∧ (List.range (l.length + 1)).any fun j => x.isPrefixOf (l.drop j)
-  let forced := fun (l : Str) =>
-    (synPieces.any fun x => synPad + x.length ≥ 80 ∧ isInfix x l) ||
-    (descPieces.any fun x => 40 + x.length ≥ 80 ∧ isInfix x l)
+  -- such a piece is written at the end of the line that is current, and only further pieces of that kind
+  -- may follow it there: a line is in order when it is at most 80 long once its trailing forcing pieces
+  -- (and the blanks in front of each) are taken off
+  let forcing := (synPieces.filter fun x => x ≠ [] ∧ synPad + x.length ≥ 80) ++
+    (descPieces.filter fun x => x ≠ [] ∧ 40 + x.length ≥ 80)
+  let forced := fun (l : Str) => stripForcing forcing l.length l
   let tooLong := ls.filter fun l => l.length > 80 ∧ !forced l
+  -- report a line that is not a verbatim line of the about text / a group description first (those are
+  -- never wrapped - a recorded finding - and must not hide another line that is too long)
+  let verbatim := lines d.about ++ d.groups.flatMap fun g => lines g.description
+  let tooLong := (tooLong.filter fun l => !verbatim.contains l) ++ (tooLong.filter fun l => verbatim.contains l)
   if tooLong ≠ [] then some ("line-longer-than-80:" ++ hex ((tooLong.head?).getD [])) else none
 
 def judge (f : List String) (ans : String) : String :=
